@@ -1154,7 +1154,12 @@ func c10Attested(c *Ctx) {
 	ver := p.callsIn(tm, "(*lib/pkcs7.SignedData).Verify")
 	vot := p.callsIn(tm, "lib/pkcs9.VerifyOptionalTimestamp")
 	adds := p.callsIn(tm, "lib/pkcs9.AddStampToSignedAuthenticode", "lib/pkcs9.AddStampToSignedData")
-	ok := len(ver) == 1 && len(vot) == 1 && len(adds) == 2
+	// two calls, one per OID - or one call through a variable that holds either function
+	nAttach := len(adds)
+	if len(adds) == 1 && len(p.mayCall(adds[0].Common())) == 2 {
+		nAttach = 2
+	}
+	ok := len(ver) == 1 && len(vot) == 1 && nAttach == 2
 	if ok {
 		// the verified snapshot handed to VerifyOptionalTimestamp is the result of that Verify
 		call, idx := resultOf(vot[0].Common().Args[0])
